@@ -36,3 +36,19 @@ Theorem C01_writer_refines_unchunked : forall c ops, vcfg c -> c_chunk c = false
   refines_u c (fold_left (model_step c) ops init_state) (fold_left (spec_step c) ops spec_init).
 Proof. exact writer_refines_unchunked. Qed.
 Print Assumptions C01_writer_refines_unchunked.
+
+(* ---- the round trip at the level of the two models: the reader model (Model/ReaderCore.v, the
+   repaired exact-rational file lookup) applied to the files the writer model produces returns, for
+   every range [s, e], the canonical block list of the Spec map: every accepted sample at exactly
+   its index with its value, nothing else; contiguously written samples as ONE block even when they
+   span files and subdirectories; blocks split exactly at the edges of the gaps.
+   Single-block call histories, chunked mode. *)
+From DRF Require Import Base.Runs Model.ReaderCore Proofs.RoundTrip.
+
+Theorem C01_roundtrip_single_chunked_partial : forall c ops s e,
+  vcfg c -> 0 < c_sc c -> (c_sc c * 1000) mod c_fc c = 0 -> c_chunk c = true ->
+  Forall (fun op => 0 <= fst op) ops ->
+  read ExactRational (rc_of c) (map (to_rfile c) (all_files (fold_left (model_step c) ops init_state))) s e
+  = runs (s_map (fold_left (spec_step c) ops spec_init)) s e.
+Proof. exact roundtrip_single_chunked. Qed.
+Print Assumptions C01_roundtrip_single_chunked_partial.
